@@ -43,7 +43,7 @@ def run(rep, prog, tier):
     interps = SR.analyse(prog)
     n = SR.emit(rep, 'R03.space', interps, ['mna', 'bias', 'ssm', 'model', 'wrapper', 'transient', 'port'])
     rep.count('space_obligations', n)
-    if n < 200: rep.error(f'only {n} index-space obligations found')
+    if n < 50: rep.error(f'only {n} index-space obligations found')
     from .c10 import layout as layout10
     c01.layout(_Relabel(rep, 'R03.layout'), interps)
     layout10(_Relabel(rep, 'R03.layout'), interps)
